@@ -27,7 +27,7 @@ Proof.
     (RcOk {| f_cmd := CMD_REGISTER; f_session := 0; f_context := CFG_CONTEXT; f_body := BRegister |})
     by (vm_compute; reflexivity).
   unfold step_frame. cbn [f_body f_cmd f_session f_context h_cmd h_session logs t_cfg]. rewrite Hacc.
-  eexists. split; [apply norm32_in |]. split; reflexivity.
+  eexists. split; [first [apply wrap32_in | apply norm32_in] |]. split; reflexivity.
 Qed.
 
 Lemma register_reply_valid hd : in32 hd ->
